@@ -29,8 +29,7 @@ package sys
 //@   ghost-ensures checkExists && result1 == nil ==> checked == name
 //@   also-modifies checked
 //@   modifies allbut(F:sys.CachedLocation.|F:sys.CachedLocations.|MD:string:*sys.CachedLocation|MV:string:*sys.CachedLocation|ML:string:*sys.CachedLocation)
-//@ func (*Location).GetProp
-//@   modifies allbut(F:sys.CachedLocation.|F:sys.CachedLocations.|MD:string:*sys.CachedLocation|MV:string:*sys.CachedLocation|ML:string:*sys.CachedLocation)
+
 //@ func (*CachedLocations).expire
 //@   ensures[C17.expire_miss]   !old(has(cls.locs, name)) ==> result0 == nil && !has(cls.locs, name)
 //@   ensures[C17.expire_hit_or_evict] old(has(cls.locs, name)) ==> (has(cls.locs, name) && result0 == cls.locs[name].Location) || (!has(cls.locs, name) && result0 == nil)
